@@ -810,6 +810,7 @@ static size_t ztpools;
 
 static struct tmap_s *task_ht;
 static size_t ztask_ht;
+static size_t ntask_ht;
 
 static int
 ini_task_ht(void)
@@ -832,30 +833,25 @@ ini_task_ht(void)
 static ssize_t
 put_task_slot(echs_toid_t oid)
 {
-/* find slot for OID for putting
- * if collision recommend new size for task_ht */
-	size_t slot = oid & (ztask_ht - 1ULL);
-	const echs_toid_t toid = task_ht[slot].oid;
+/* find slot for OID for putting, open addressing with linear probing,
+ * the table is kept at most half full */
+	size_t slot;
 
-	if (LIKELY(!toid)) {
-		return slot;
-	} else if (UNLIKELY(toid == oid)) {
-		/* huh? that's very inconsistent */
-		return slot;
-	}
-	/* calc new size */
-	with (size_t nuz = 1ULL << (__builtin_ctzll(toid ^ oid) + 1U)) {
+	if (UNLIKELY((ntask_ht + 1U) * 2U > ztask_ht)) {
+		const size_t nuz = ztask_ht * 2U;
 		struct tmap_s *nut = calloc(nuz, sizeof(*task_ht));
 
-		assert(nuz > ztask_ht);
 		if (UNLIKELY(nut == NULL)) {
 			/* ah well */
 			return -1;
 		}
 		for (size_t i = 0U; i < ztask_ht; i++) {
-			/* we can't get any additional collisions */
 			if (task_ht[i].oid) {
-				const size_t si = task_ht[i].oid & (nuz - 1ULL);
+				size_t si = task_ht[i].oid & (nuz - 1ULL);
+
+				while (nut[si].oid) {
+					si = (si + 1U) & (nuz - 1ULL);
+				}
 				nut[si] = task_ht[i];
 			}
 		}
@@ -864,9 +860,10 @@ put_task_slot(echs_toid_t oid)
 		task_ht = nut;
 		ztask_ht = nuz;
 		ECHS_NOTI_LOG("resized table of tasks to %zu", ztask_ht);
-		slot = oid & (ztask_ht - 1ULL);
-		assert(!task_ht[slot].oid);
 	}
+	for (slot = oid & (ztask_ht - 1ULL);
+	     task_ht[slot].oid && task_ht[slot].oid != oid;
+	     slot = (slot + 1U) & (ztask_ht - 1ULL));
 	return slot;
 }
 
@@ -874,12 +871,36 @@ static size_t
 get_task_slot(echs_toid_t oid)
 {
 /* find slot for OID for getting */
-	for (size_t i = 16U/*retries*/, slot = oid & (ztask_ht - 1U); i; i--) {
+	for (size_t slot = oid & (ztask_ht - 1ULL);
+	     task_ht[slot].oid;
+	     slot = (slot + 1U) & (ztask_ht - 1ULL)) {
 		if (task_ht[slot].oid == oid) {
 			return slot;
 		}
 	}
 	return (size_t)-1ULL;
+}
+
+static void
+rem_task_slot(size_t i)
+{
+/* vacate slot I and close the gap in its probe sequence */
+	const size_t m = ztask_ht - 1ULL;
+
+	task_ht[i] = (struct tmap_s){0U, NULL};
+	ntask_ht--;
+	for (size_t j = (i + 1U) & m; task_ht[j].oid; j = (j + 1U) & m) {
+		/* the one in J may move up into the hole unless its home
+		 * slot lies (cyclically) behind the hole */
+		const size_t h = task_ht[j].oid & m;
+
+		if (((j - h) & m) >= ((j - i) & m)) {
+			task_ht[i] = task_ht[j];
+			task_ht[j] = (struct tmap_s){0U, NULL};
+			i = j;
+		}
+	}
+	return;
 }
 
 static _task_t
@@ -960,6 +981,9 @@ make_task(echs_toid_t oid)
 	free_tasks = free_tasks->next;
 	nfree_tasks--;
 
+	if (LIKELY(!task_ht[slot].oid)) {
+		ntask_ht++;
+	}
 	task_ht[slot] = (struct tmap_s){oid, res};
 	memset(res, 0, sizeof(*res));
 	return res;
@@ -976,7 +1000,7 @@ free_task(_task_t t)
 			ECHS_NOTI_LOG("inconsistent table of tasks");
 			break;
 		}
-		task_ht[i] = (struct tmap_s){0U, NULL};
+		rem_task_slot(i);
 	}
 
 	if (LIKELY(t->dflt_cred.wd != NULL)) {
@@ -1025,6 +1049,7 @@ free_task_ht(void)
 		free(task_ht);
 		task_ht = NULL;
 	}
+	ztask_ht = ntask_ht = 0U;
 	return;
 }
 
